@@ -16,7 +16,7 @@ from .c18 import _merge_canaries
 
 PROP = "C20"
 NUMTAGS = (AnyObj.BOOL, AnyObj.INT, AnyObj.FLOAT)
-SHAPES_QUICK = [((1, 1), None), ((2, 1), [2, 1]), ((1, 1, 1), [1, 2, 1])]
+SHAPES_QUICK = [((1, 1), None), ((2, 1), [2, 1]), ((1, 1, 1), [1, 2, 1]), ((5, 2), [2, 1])]
 SHAPES_THOROUGH = SHAPES_QUICK + [((1, 2), [1, 1]), ((2, 2, 1), None), ((1, 1, 1, 1), [3, 1, 1, 2])]
 OPS = ("rate", "predict_win", "predict_draw", "predict_rank")
 
